@@ -230,6 +230,10 @@ def systematic(seed=0):
     seq = [{c: POLICY[: i % 5]} for i, c in enumerate(CONDITIONS + SIMPLE_DIRECTIVES)]
     for idx in [0, 255, 256, True, False, [0, 1, 2], []]:
         seq.append({"suit-directive-set-component-index": idx})
+    # one ITEM holding several commands of one family (the language accepts it; every command is emitted, in order)
+    seq.append({CONDITIONS[0]: POLICY[:1], CONDITIONS[1]: POLICY[:2], CONDITIONS[2]: []})
+    seq.append({SIMPLE_DIRECTIVES[0]: [], SIMPLE_DIRECTIVES[1]: POLICY[:1]})
+    seq.append({"suit-directive-try-each": [[{CONDITIONS[0]: [], CONDITIONS[1]: POLICY[:1]}], []]})
     e = envelope(rng, severed=[], n_auth=0, members=[])
     e["SUIT_Envelope_Tagged"]["suit-manifest"]["suit-validate"] = seq
     out.append(("all-conditions-and-simple-directives", e))
